@@ -239,6 +239,10 @@ func getTopics(db *sql.DB) ([]topicsRecord, error) {
 			topics = append(topics, record)
 		}
 	}
+	// Next returns false at the end of the rows and when reading them fails
+	if err := rows.Err(); err != nil {
+		return nil, fmt.Errorf("failed to read topics: %w", err)
+	}
 	return topics, nil
 }
 
@@ -262,6 +266,11 @@ func transformMessages(db *sql.DB, f func(*sql.Rows) error) error {
 		if err != nil {
 			return err
 		}
+	}
+	// Next returns false at the end of the rows and when reading them fails, e.g. on a
+	// damaged page in the middle of the table: that is not the end of the messages.
+	if err := rows.Err(); err != nil {
+		return fmt.Errorf("failed to read messages: %w", err)
 	}
 	return nil
 }
